@@ -6,7 +6,7 @@
      - what zerv's own SemVer parser accepts it prints back unchanged.
    and, below, THE GRAMMAR THEOREMS: the printed string is in the grammar, for every object and at the level of the commands. *)
 From ZV Require Import Str Sanitize SanitizeSpec SanitizeProofs Zerv Render Convert SemVer Pep440 SemVerProofs NoPanicProofs ConvertProofs Bump Cli Flow
-                       RegexSrc PepWfProofs AsciiProofs GrammarProofs OutputGrammar ParseBack.
+                       RegexSrc PepWfProofs AsciiProofs GrammarProofs OutputGrammar ParseBack Pep440Nf PepRoundTrip PepParseBack.
 From RelationAlgebra Require regex.
 
 (* any value a component contributes is the image of a sanitiser *)
@@ -54,6 +54,11 @@ Proof. intros z p H. split; [apply (pep_output_chars z p H)|apply (pep_output_as
 Theorem c01_own_parser_accepts_semver : forall z, semver_parse (semver_print (semver_of_zerv z)) = Some (semver_of_zerv z).
 Proof. exact parse_back. Qed.
 
+(* ... and its own PEP 440 parser accepts every PEP 440 string zerv prints whose numbers fit 32 bits, returning the value printed
+   (pep_nf_b is evaluated on every PEP 440 value rendered in the correspondence runs) *)
+Theorem c01_own_parser_accepts_pep440 : forall z p, pep_of_zerv z = Some p -> pep_nf_b p = true -> pep_parse (pep_print p) = Some p.
+Proof. intros z p _ H. apply pep_parse_print, pep_nf_b_sound, H. Qed.
+
 (* the PEP 440 value is printable in normal form: non-empty release, every label carries its number, local segments are numbers or
    non-empty ASCII-alphanumeric strings *)
 Theorem c01_pep440_normal_shape : forall z p, pep_of_zerv z = Some p -> pep_wf p.
@@ -99,3 +104,4 @@ Print Assumptions c01_render_pep440.
 Print Assumptions c01_semver_ascii.
 Print Assumptions c01_pep440_ascii.
 Print Assumptions c01_own_parser_accepts_semver.
+Print Assumptions c01_own_parser_accepts_pep440.
